@@ -4,7 +4,7 @@
 (* doubles (encoded exactly, see FloatEnc), are replayed through the actions of Units.  After *)
 (* every step the observation must lie within relative 10^-Tol10 of the value the action      *)
 (* logged; the comparison is exact big-rational arithmetic inside TLC.                        *)
-EXTENDS Units, FloatEnc, IOUtils
+EXTENDS UnitsFloat, IOUtils
 
 Traces == JsonDeserialize(IOEnv.TRACE_FILE)
 
@@ -15,21 +15,7 @@ Ev == Traces[tid][pos]
 
 TInit == Init /\ tid \in 1..Len(Traces) /\ pos = 1 /\ verdict = "none"
 
-(* a NUMBER as a big rational: the opaque generators contribute mantissa^e and a power of ten *)
-NumRat(n) ==
-    IF NIsZero(n) THEN BRZero
-    ELSE LET ten == n.s.eV * GenValue.eV.e10 + n.s.NA * GenValue.NA.e10
-             e2 == n.s.g2 + ten
-             e5 == n.s.g5 + ten
-             e3 == n.s.g3
-             gpos == BMul(BPowBig(BFromInt(GenValue.eV.mant), Pos(n.s.eV)), BPowBig(BFromInt(GenValue.NA.mant), Pos(n.s.NA)))
-             gneg == BMul(BPowBig(BFromInt(GenValue.eV.mant), Pos(-n.s.eV)), BPowBig(BFromInt(GenValue.NA.mant), Pos(-n.s.NA)))
-             num == BMul(BMul(BMul(BFromInt(Abs(n.m[1])), BPow2(Pos(e2))), BMul(BPow3(Pos(e3)), BPow5(Pos(e5)))), gpos)
-             den == BMul(BMul(BMul(BFromInt(n.m[2]), BPow2(Pos(-e2))), BMul(BPow3(Pos(-e3)), BPow5(Pos(-e5)))), gneg)
-         IN  BRat(Sgn(n.m[1]), num, den)
-
-IsF(f) == f.s \in {-1, 0, 1}
-Near(f, n) == IsF(f) /\ FloatWithin(f, NumRat(n), Tol10)
+Near(f, n) == NearTol(f, n, Tol10)
 NearUnit(dim, f, u) == dim = u.dim /\ Near(f, NOfScale(u.scale))
 
 (* the Units action an event stands for *)
@@ -79,8 +65,12 @@ ObsClause(e) ==
              ELSE IF \E i \in 1..Len(e.units) : ~Near(e.units[i].si, NOfScale(want.units[e.units[i].d].scale)) THEN "unit-size"
              ELSE IF \E i \in 1..Len(e.units) : ~Near(e.units[i].factor, want.factor) THEN "factor"
              ELSE IF { e.units[i].d : i \in 1..Len(e.units) } # Dims THEN "keys" ELSE ""
+      \* a dimensionless argument is passed on to the plain routine, whose own range error (exp of
+      \* more than 709) is not a refusal of units
       [] e.ev = "bexp" -> IF e.raised = E_BackendExp.raise THEN ""
-                          ELSE IF e.raised THEN "unexpected-raise" ELSE "missing-raise"
+                          ELSE IF ~e.raised THEN "missing-raise"
+                          ELSE IF e.exc = "OverflowError" /\ Exceeds(NumRat(E_BackendExp.x), 709) THEN ""
+                          ELSE "unexpected-raise"
       [] OTHER -> "unknown-event"
 
 TStep ==
